@@ -138,6 +138,9 @@ def ev_call(ex, n, st, spec, b):
             return ex.world.cast(ex, n.args[0].value if isinstance(n.args[0], ast.Constant) else n.args[0], E(n.args[1]), st, n, spec)
         if name in b and isinstance(b[name], FuncV):
             return call_value(ex, b[name], [E(a) for a in n.args], {k.arg: E(k.value) for k in n.keywords}, st, n, spec)
+        sf = ex.cx.spec.get("__stateful__")
+        if sf and name in sf:
+            return sf[name](st, *[E(a) for a in n.args])
         if name in ex.cx.spec:
             return ex.cx.spec[name](*[E(a) for a in n.args])
         if name in st.env:
@@ -164,7 +167,7 @@ def ev_call(ex, n, st, spec, b):
     for k in n.keywords:
         if k.arg is None:
             v = E(k.value)
-            if isinstance(v, ObjV) and v.cls == "__kwargs__":
+            if isinstance(v, ObjV) and v.cls in ("__kwargs__", "__kwdict__"):
                 kwargs.update(v.fields)
             else:
                 raise Unsupported("** argument")
